@@ -165,6 +165,13 @@ Definition fill_node (buf : list Z) (n : node) : list Z :=
 Definition cp_fill (p : pool) : list Z :=
   fold_left (fun buf t => fold_left fill_node t buf) (trees p) (repeat 0 (Z.to_nat (psize p))).
 
+(* ---- BaseAssembler::embed_const_pool / BaseBuilder::embed_const_pool: align(kData, alignment()) [no-op for alignment <= 1],
+        bind(label), then size() bytes written by fill(). `pre` = bytes already in the section. Returns (offset the label is
+        bound to, section size afterwards); the bytes from the label on are cp_fill p. *)
+Definition embed_layout (pre : Z) (p : pool) : Z * Z :=
+  let lab := if palign p <=? 1 then pre else pre + align_up_diff pre (palign p) in
+  (lab, lab + psize p).
+
 (* ---- histories *)
 Definition cmd := (list Z * Z)%type.   (* (data, size) *)
 
